@@ -303,6 +303,31 @@ def _reaching_names(fi, expr_nodes, upto_line):
             for b_ in _store_bases(o_):
                 for a in st.value.args:
                     assigns.append((st.lineno, b_, a))
+    # a local that names a view of an array (`v = base.reshape(..)`, `v = base[...]`): what is stored through the view is stored in the base
+    view_of = {}
+    for st in walk_no_nested(fi.node):
+        if isinstance(st, ast.Assign) and len(st.targets) == 1 and isinstance(st.targets[0], ast.Name):
+            v = st.value
+            b = None
+            if isinstance(v, ast.Call) and isinstance(v.func, ast.Attribute) and v.func.attr in ('reshape', 'transpose', 'view', 'ravel', 'swapaxes', 'squeeze') \
+                    and isinstance(v.func.value, ast.Name):
+                b = v.func.value.id
+            elif isinstance(v, ast.Subscript) and isinstance(v.value, ast.Name):
+                b = v.value.id
+            elif isinstance(v, ast.Attribute) and v.attr in ('T', 'data', 'real', 'imag') and isinstance(v.value, ast.Name):
+                b = v.value.id
+            if b is not None and b != st.targets[0].id:
+                view_of[st.targets[0].id] = b
+    for (ln, nm, val) in list(assigns):
+        seen_v = set()
+        cur_ = nm
+        while cur_ in view_of and cur_ not in seen_v:
+            seen_v.add(cur_)
+            cur_ = view_of[cur_]
+            if isinstance(val, ast.AST) and not (isinstance(val, ast.Call) and isinstance(val.func, ast.Attribute) and val.func.attr in ('reshape', 'transpose', 'view', 'ravel', 'swapaxes', 'squeeze')
+                                                 and isinstance(val.func.value, ast.Name) and val.func.value.id == cur_):
+                assigns.append((ln, cur_, val))
+
     def value_names(e):
         """names whose *values* flow into e: a name that only occurs under .shape/.size/.ndim/.dtype, numpy.shape(..), len(..),
         numpy.zeros_like(..) / empty_like contributes its shape, not its value"""
